@@ -600,11 +600,11 @@ def attribute_nested_leak(ops, i, got, alone, field_names=(), field_defaults=Non
             return None
         return 'shared-nested-config-leak' if leak_roots(ops, i) else None
     if ops[i]['op'] == 'load':
-        # load side: the rebound loader attribute is the load key transform, so (cause) one of the roots must set one, and (symptom)
+        # load side: the rebound loader attribute is the load key transform (v1: key case), so (cause) one of the roots must set one, and (symptom)
         # only the matching of spellings of field names may differ
         metas = class_metas(ops)
         all_roots = leak_roots(ops, i)
-        roots = [r for r in all_roots if (metas.get(r) or {}).get('key_transform_with_load')]
+        roots = [r for r in all_roots if (metas.get(r) or {}).get('key_transform_with_load') or (metas.get(r) or {}).get('v1_key_case')]
         if not all_roots:
             return None
         nests, _ = nest_info(ops)
